@@ -58,10 +58,12 @@ class MathParser:
 
     def __init__(self, parser):
         self.parser = parser
+        self.error_toks = []
 
     def expand_display_math(self, buf, tok, env):
         buf.next()
         start_simple = start = tok.pos
+        self.error_toks = []    # error marks from expand_math_section()
         first_section = True
         next_repl = True
         out = [defs.ActionToken(start),
@@ -92,11 +94,14 @@ class MathParser:
                 out = [defs.TextToken(out[-1].pos, txt[-1], pos_fix=True)]
             else:
                 out = [defs.ActionToken(out[-1].pos)]
+            out = self.error_toks + out
         else:
             if self.parser.parms.math_displayed_simple:
                 txt = self.parser.get_text_direct(out).strip()
+                # NB: an error mark must not get lost
                 out = [defs.ActionToken(start_simple),
-                        defs.SpaceToken(start_simple, '  ', pos_fix=True),
+                        defs.SpaceToken(start_simple, '  ', pos_fix=True)
+                        ] + self.error_toks + [
                         defs.TextToken(start_simple, self.parser.parms.
                                         lang_context.math_repl_display[0],
                                         pos_fix=True)]
@@ -142,8 +147,10 @@ class MathParser:
             tok = buf.skip_space()
             if not tok or type(tok) is defs.ParagraphToken:
                 buf.next()
-                out = (utils.latex_error('missing end of maths', start,
-                                self.parser.latex, self.parser.parms) + out)
+                err = utils.latex_error('missing end of maths', start,
+                                self.parser.latex, self.parser.parms)
+                self.error_toks = self.error_toks + err
+                out = err + out
                 break
             elif tok.txt in toks_stop:
                 buf.next()
